@@ -103,6 +103,10 @@ func (c CounterStyle) RenderValueStyle(counterValue int, counterStyle pr.Counter
 // maximum number of pad symbols added to a counter representation
 const maxPadLength = 1000
 
+// maximum number of repetitions of one symbol in the symbolic and additive
+// systems : Counter Styles 3 allows to use the fallback for longer representations
+const maxSymbolRepeat = 1000
+
 func (c CounterStyle) renderValue(counterValue int, counter *CounterStyleDescriptors, previousTypes utils.Set) string {
 	if counter == nil {
 		if _, has := c["decimal"]; has {
@@ -289,6 +293,9 @@ func symbolic(symbols []pr.NamedString, value int) (string, bool) {
 	L := len(symbols)
 	index := (value - 1) % L
 	repeat := (value-1)/L + 1
+	if repeat > maxSymbolRepeat {
+		return "", false
+	}
 	return strings.Repeat(symbol(symbols[index]), repeat), true
 }
 
@@ -347,6 +354,9 @@ func additive(symbols []pr.IntNamedString, value int) (string, bool) {
 			continue
 		}
 		repetitions := value / vs.Int
+		if repetitions > maxSymbolRepeat {
+			return "", false
+		}
 		parts = append(parts, strings.Repeat(symbol(vs.NamedString), repetitions))
 		value -= vs.Int * repetitions
 		if value == 0 {
